@@ -76,6 +76,7 @@ func runC02(p *core.Prog, r *core.Report) {
 	c02R6(p, r)
 	c02R7(p, r)
 	c02R8(p, r)
+	c02R9(p, r)
 }
 
 // rootedAt reports whether address a is (a field/element chain of) field `field` of receiver recv.
@@ -982,5 +983,52 @@ func c02R8(p *core.Prog, r *core.Report) {
 			}
 			check(fn, v, c, "", 0)
 		})
+	}
+}
+
+// c02R9: what is handed to the manifest constructor as raw body is what was read. A caller that trims,
+// replaces or re-encodes the bytes first stores a manifest under a digest the sender never saw.
+func c02R9(p *core.Prog, r *core.Report) {
+	const rule = "C02.R9"
+	r.Rule(rule, "raw bodies reach the constructor unchanged: the argument of every manifest.WithRaw in the module has no origin that is the result of a byte- or string-rewriting function (bytes.*, strings.*, encoding/json, unicode)", 5)
+	n := 0
+	for _, fn := range p.ModFuncs {
+		if len(fn.Blocks) == 0 || fn.Synthetic != "" {
+			continue
+		}
+		if pk := core.FuncPkg(fn); pk == nil || pk.Path() == modPath("types/manifest") {
+			continue
+		}
+		lab := labeler{}
+		for _, c := range core.CallsTo(fn, func(f *types.Func) bool { return core.IsModFunc(f, "types/manifest", "WithRaw") }) {
+			call, ok := c.(*ssa.Call)
+			if !ok || len(call.Call.Args) != 1 {
+				continue
+			}
+			n++
+			label := lab.next("raw body")
+			bad := ""
+			for _, o := range core.Origins(call.Call.Args[0], core.SliceOpts{Helpers: core.Helpers(fn, 2)}) {
+				if o.Kind != core.OCall || o.Callee() == nil || o.Callee().Pkg() == nil {
+					continue
+				}
+				switch o.Callee().Pkg().Path() {
+				case "bytes", "strings", "encoding/json", "unicode", "unicode/utf8", "regexp":
+					// bytes.Buffer.Bytes() and the like hand back what was written into them: not a rewrite
+					if sig, ok := o.Callee().Type().(*types.Signature); ok && sig.Recv() != nil && (core.IsNamed(sig.Recv().Type(), "bytes", "Buffer") || core.IsNamed(sig.Recv().Type(), "strings", "Builder")) {
+						continue
+					}
+					bad = o.Callee().Pkg().Path() + "." + o.Callee().Name()
+				}
+			}
+			if bad == "" {
+				r.Held(rule, p.FuncName(fn), label, p.Pos(call.Pos()), "the bytes come from a read or a stored body, not from a rewriting function")
+			} else {
+				r.Violated(rule, p.FuncName(fn), label, p.Pos(call.Pos()), "the raw body handed to the manifest constructor is the result of "+bad+": the manifest is stored with other bytes, under another digest, than the ones that were supplied")
+			}
+		}
+	}
+	if n == 0 {
+		r.MissingAnchor(rule, "calls of manifest.WithRaw outside types/manifest")
 	}
 }
